@@ -601,3 +601,12 @@ package compiler
 //@   inlined-loop 0:
 //@     invariant kept: forall k: string :: newMap.records.has(k) ==> allowList.records.has(refKey(orderedMap.records[k].SelfRef.ReferredPkg, orderedMap.records[k].SelfRef.ReferredType))
 //@     invariant complete: forall k: string :: orderedMap.records.has(k) && skolem("pos", "pre", k) <= $i && allowList.records.has(refKey(orderedMap.records[k].SelfRef.ReferredPkg, orderedMap.records[k].SelfRef.ReferredType)) ==> newMap.records.has(k)
+//
+// disjunction_to_type (Go, Java: "no union type remains anywhere"): whatever the union was, what takes its
+// place is a leaf - a scalar or a reference to the generated object - so nothing nested can survive in
+// it; the branches go through the visitor before they become fields of the generated object
+// (structural obligation recursion:...branches-are-visited-before-they-become-fields).
+//@ func (*DisjunctionToType).processDisjunction
+//@   property C06
+//@   requires pass != nil && visitor != nil && schema != nil && def.Kind == ast.KindDisjunction
+//@   ensures  leaf: result.1 == nil ==> result.0.Kind == ast.KindScalar || result.0.Kind == ast.KindRef
